@@ -211,7 +211,14 @@ func corruptString(r *rng, s string) string {
 		return s
 	}
 	p := r.intn(len(s))
-	switch r.intn(5) {
+	switch r.intn(6) {
+	case 5:
+		// surrounding whitespace (a parser that trims in one place and not in another)
+		ws := pick(r, []string{" ", "\n", "\t", "\r\n", "\u00a0"})
+		if r.bool() {
+			return ws + s
+		}
+		return s + ws
 	case 0:
 		return s[:p] // truncate
 	case 1:
